@@ -1,5 +1,6 @@
 import Tyme.Driver.Util
 import Tyme.Driver.P01
+import Tyme.Driver.P18
 import Tyme.Driver.P04
 import Tyme.Driver.P07
 import Tyme.Driver.P19
@@ -19,6 +20,7 @@ def execOpAll (op : String) (a : List Int) : String :=
     <|> (P19.execOp op a)
     <|> (P07.execOp op a)
     <|> (P04.execOp op a)
+    <|> (P18.execOp op a)
     -- DISPATCH-EXEC   <|> (Pxx.execOp op a)
   match r with
   | none => "bad-op"
@@ -34,6 +36,7 @@ def specOpAll (op : String) (a : List Int) : String :=
     <|> (P19.specOp op a)
     <|> (P07.specOp op a)
     <|> (P04.specOp op a)
+    <|> (P18.specOp op a)
     -- DISPATCH-SPEC   <|> (Pxx.specOp op a)
   match r with
   | none => "n/a"
@@ -48,6 +51,7 @@ def runEnumAll (name : String) (args : List String) (out : IO.FS.Stream) : Optio
   <|> (P19.runEnum name args out)
   <|> (P07.runEnum name args out)
   <|> (P04.runEnum name args out)
+  <|> (P18.runEnum name args out)
   -- DISPATCH-ENUM   <|> (Pxx.runEnum name args out)
 
 def lineWith (f : String → List Int → String) (line : String) : String :=
